@@ -198,6 +198,12 @@ func scenarioSegments() int {
 		for _, oid := range otherIDs {
 			w.Net.WaitCase(oid, func(o []*wire.Obs) bool { return len(o) >= 1 }, w.BarrierWait)
 		}
+		// the sentinel says the proxy has processed the stream; the driver's own readers
+		// (large messages over TCP to a backend) may still be behind on a loaded machine:
+		// expected messages are awaited under the watchdog before they count as missing
+		for _, id := range ids {
+			w.Net.WaitCase(id, func(o []*wire.Obs) bool { return len(o) >= 1 }, w.BarrierWait)
+		}
 		sig := fmt.Sprintf("n%d|long%v|look%v|%s", vfMin(n, 4), long > 0, look > 0, kind)
 		bad := false
 		for k, id := range ids {
